@@ -614,7 +614,7 @@ func c05R5(c *Ctx) {
 	})
 	// no writes into the input's backing array, in any function given the pump's chunk
 	pumps := map[string][]string{
-		"TrzszFilter.wrapOutput": {"(*trzsz.trzszDetector).detectTrzsz", "(*trzsz.TrzszFilter).detectOSC52", "trzsz.detectZmodem", "(*trzsz.zmodemTransfer).handleServerOutput", "(*trzsz.traceLogger).writeTraceLog"},
+		"TrzszFilter.wrapOutput": {"(*trzsz.trzszDetector).detectTrzsz", "(*trzsz.TrzszFilter).detectOSC52", "trzsz.detectZmodem", "(*trzsz.zmodemTransfer).handleServerOutput", "(*trzsz.traceLogger).writeTraceLog", "trzsz.trimVT100"},
 		// the input pump reads into one buffer for the whole session and hands slices of it to the input handler
 		"TrzszFilter.wrapInput": {"(*trzsz.TrzszFilter).sendInput"},
 	}
@@ -643,6 +643,18 @@ func c05R5(c *Ctx) {
 							if l.V == ssa.Value(p) {
 								wrote = true
 							}
+						}
+					}
+				})
+				// ... and appends to a slice of it (`out := buf[:0]; out = append(out, b)`: filtering in place)
+				eachInstr(callee, func(in ssa.Instruction) {
+					call, ok := in.(*ssa.Call)
+					if !ok || calleeID(&call.Call) != "builtin append" || len(call.Call.Args) == 0 {
+						return
+					}
+					for _, l := range origins(call.Call.Args[0], originOpts{throughSlice: true}) {
+						if l.V == ssa.Value(p) {
+							wrote = true
 						}
 					}
 				})
